@@ -1208,6 +1208,7 @@ class Unit:
         parts = fn_parts(src, a, b) if is_fn else None
         n_ann = 0
         props = None
+        want_body_canary = False
         head_ins = toks[hs].start
         for (name, arg, tlines) in blk.subs:
             text = "\n".join(tlines).rstrip()
@@ -1234,7 +1235,9 @@ class Unit:
                     # so `false` must NOT be provable at the start of the body
                     # (functions verified without loop isolation get the canary in their loops only:
                     # a failed assertion is assumed afterwards within the same query)
-                    ed.insert(toks[parts["body"][0]].end, "\nproof { assert(false); } // vacuity canary\n", "A", "canary")
+                    # -- inserted after the other sub-directives, so that it follows the ghost
+                    # declarations / `hide` headers of //@bodystart
+                    want_body_canary = True
                 n_ann += 1
             elif name == "bodystart":
                 bo, bc = parts["body"]
@@ -1459,6 +1462,8 @@ class Unit:
                 rule_R8(ed, src, a, b)
             else:
                 raise ExtractError("%s: unknown sub-directive //@%s" % (label, name))
+        if want_body_canary:
+            ed.insert(toks[parts["body"][0]].end, "\nproof { assert(false); } // vacuity canary\n", "A", "canary")
         # every function under contract is verified in its own solver instance: the verdict
         # for one function then cannot depend on which other functions were checked before it
         if is_fn and parts and parts["body"] and any(n == "spec" for (n, _a, _t) in blk.subs) \
